@@ -140,6 +140,15 @@ func rootVal(v ssa.Value, fr *Frame) (ssa.Value, *Frame) {
 			} else {
 				return v, fr
 			}
+		case *ssa.UnOp:
+			// a load from a local that is written once as a whole (a spilled struct parameter, `x := y`)
+			if al, ok := x.X.(*ssa.Alloc); ok && x.Op == token.MUL {
+				if sts := storesTo(al); len(sts) == 1 {
+					v = sts[0].Val
+					continue
+				}
+			}
+			return v, fr
 		case *ssa.Phi:
 			// phi whose edges share one root
 			var r0 ssa.Value
@@ -250,7 +259,34 @@ func (c *Ctx) runProducer(a *asyncInfo, ro *Roles, root *ssa.Function, policy co
 			}
 			rv, rfr = rootVal(call.Call.Args[0], rfr)
 		}
-		return rv == submitted
+		if rv == submitted {
+			return true
+		}
+		// the item wrapped in a struct literal (a typed queue element): one of its fields is the submitted item
+		if ld, ok := rv.(*ssa.UnOp); ok && ld.Op == token.MUL {
+			if al, ok := ld.X.(*ssa.Alloc); ok && al.Referrers() != nil {
+				if _, isStruct := al.Type().Underlying().(*types.Pointer).Elem().Underlying().(*types.Struct); isStruct {
+					for _, rr := range *al.Referrers() {
+						if fa, ok := rr.(*ssa.FieldAddr); ok {
+							for _, st := range storesTo(fa) {
+								fv, ffr := rootVal(st.Val, rfr)
+								for i := 0; i < 4; i++ {
+									call, ok := fv.(*ssa.Call)
+									if !ok || !defaultCopyMaker(call) {
+										break
+									}
+									fv, ffr = rootVal(call.Call.Args[0], ffr)
+								}
+								if fv == submitted {
+									return true
+								}
+							}
+						}
+					}
+				}
+			}
+		}
+		return false
 	}
 	ts.OnBranch = func(s *TSCtx, iff *ssa.If, taken bool) (string, bool) {
 		cond, pol := iff.Cond, taken
@@ -497,8 +533,13 @@ func checkC04(c *Ctx, r *Report) {
 					}
 					t := rv.Type()
 					sendTypes = append(sendTypes, types.TypeString(t, shortQual))
-					_, isSlice := t.Underlying().(*types.Slice)
-					if !isEventPtr(t) && !(isByteLike(t) && isSlice) { // a string would not match the worker's []byte case
+					okT := func(t types.Type) bool {
+						_, isSlice := t.Underlying().(*types.Slice)
+						return isEventPtr(t) || (isByteLike(t) && isSlice) // a string would not match the worker's []byte case
+					}
+					if st, isStruct := t.Underlying().(*types.Struct); isStruct && st.NumFields() == 2 && okT(st.Field(0).Type()) && okT(st.Field(1).Type()) && !types.Identical(st.Field(0).Type(), st.Field(1).Type()) {
+						// a typed queue element holding either an event or raw bytes
+					} else if !okT(t) {
 						okTypes = false
 					}
 				}
@@ -804,11 +845,25 @@ func (c *Ctx) checkWorkerItems(r *Report, ro *Roles, a *asyncInfo, rule string) 
 			px, py := c.accessPath(x.X, s.Frame), c.accessPath(x.Y, s.Frame)
 			if (strings.Contains(px, "<-") || strings.Contains(py, "<-")) && (x.Op == token.EQL || x.Op == token.NEQ) {
 				isM := (x.Op == token.EQL) == taken
-				other := px
+				other, item := px, x.Y
 				if strings.Contains(px, "<-") {
-					other = py
+					other, item = py, x.X
 				}
-				na, ch = na+fmt.Sprintf("marker(%s)=%v;", other, isM), true
+				if other == "nil" {
+					// `item.field != nil`: which kind of item this is (a typed queue element with one field per kind)
+					ft := item.Type()
+					present := !isM
+					na, ch = na+fmt.Sprintf("is(%s)=%v;", types.TypeString(ft, shortQual), present), true
+					if st := itemStruct(item); st != nil && st.NumFields() == 2 && !present {
+						for i := 0; i < 2; i++ {
+							if !types.Identical(st.Field(i).Type(), ft) {
+								na += fmt.Sprintf("is(%s)=true;", types.TypeString(st.Field(i).Type(), shortQual))
+							}
+						}
+					}
+				} else {
+					na, ch = na+fmt.Sprintf("marker(%s)=%v;", other, isM), true
+				}
 			}
 		case *ssa.Extract:
 			if ta, ok := x.Tuple.(*ssa.TypeAssert); ok && x.Index == 1 {
@@ -2438,4 +2493,25 @@ func isFreshChan(v ssa.Value, d int) bool {
 		}
 	}
 	return false
+}
+
+// itemStruct: v is a field read of a struct-typed value (x.f, or *(&x.f)) → that struct type.
+func itemStruct(v ssa.Value) *types.Struct {
+	switch x := v.(type) {
+	case *ssa.Field:
+		st, _ := x.X.Type().Underlying().(*types.Struct)
+		return st
+	case *ssa.UnOp:
+		if fa, ok := x.X.(*ssa.FieldAddr); ok {
+			st, _ := fa.X.Type().Underlying().(*types.Pointer).Elem().Underlying().(*types.Struct)
+			return st
+		}
+	case *ssa.Phi:
+		for _, e := range x.Edges {
+			if st := itemStruct(e); st != nil {
+				return st
+			}
+		}
+	}
+	return nil
 }
